@@ -12,6 +12,7 @@ import re
 VERIF = os.path.dirname(os.path.dirname(os.path.abspath(__file__)))
 REPO = os.environ.get('PYVC_REPO', '/repo')
 VENV_PY = '/venv/bin/python'
+KNOWN_OBL = {}
 OUT = os.environ.get('PYVC_OUT', VERIF)   # evidence/replays root (scratch dir when testing mutants)
 
 
@@ -56,6 +57,9 @@ class Result:
 
 
 def run_deductive(spec, res, tier):
+    global KNOWN_OBL
+    kn_ = load_json(os.path.join(VERIF, 'known_findings.json'), {'findings': []})
+    KNOWN_OBL = {(f['property'], f.get('obligation_key')): f for f in kn_.get('findings', []) if f.get('obligation_key')}
     from . import extract, solve
     from .execute import Executor, ContractOutOfDate
     from .engine import Contract
@@ -105,7 +109,7 @@ def run_deductive(spec, res, tier):
         r1 = solve.discharge(main, timeout_ms=timeout)
         r2 = solve.discharge(aux, timeout_ms=3000, use_cvc5=False)
         # retry unknowns once with a longer budget (load on the box must not flip verdicts)
-        retry = [o for o in main if r1[o.name]['verdict'] == 'unknown']
+        retry = [o for o in main if r1[o.name]['verdict'] == 'unknown' and (res.pid, key_of(o.name)) not in KNOWN_OBL]
         if len(retry) > 6:
             # many open obligations: a changed body, not solver noise -- retry only one representative per obligation key
             seen_k, rr = set(), []
@@ -128,6 +132,13 @@ def run_deductive(spec, res, tier):
                 res.discharged += 1
                 res.by_backend[r['backend']] = res.by_backend.get(r['backend'], 0) + 1
             else:
+                if (res.pid, key) in KNOWN_OBL:
+                    # an obligation recorded as a known finding (refuted on the pinned tree): reported as such, never as proved
+                    kf = KNOWN_OBL[(res.pid, key)]
+                    line_ = f'KNOWN-FINDING: property={res.pid} {kf["what"]} [key={kf["key"]}]'
+                    if line_ not in res.known:
+                        res.known.append(line_)
+                    continue
                 base = ledger.get(key)
                 fnq = o.fn
                 same_src = base is not None and base.get('sha') == res.functions.get(fnq)
